@@ -7,6 +7,7 @@
 import SV.Persist.Proofs
 import SV.Persist.CrashProofs
 import SV.FactsProofs
+import SV.GenProofs
 namespace SV.Props.C10
 open SV SV.Persist
 
@@ -95,5 +96,11 @@ theorem driver_judgement_sound (maxBatch : Nat) (hm : 1 ≤ maxBatch) (ops : Lis
       ∀ k, alookup k img = (ops.take j).foldl specStep (fun _ => none) k := imageAllowed_sound maxBatch hm ops i img h
 theorem driver_judgement_complete (maxBatch : Nat) (ops : List Op) (i : Nat) (survived : Bool) :
     imageAllowed maxBatch ops i (crashImage maxBatch ops i survived) = true := imageAllowed_crashImage maxBatch ops i survived
+
+/-! ### tie by translation: the source's own leaf logic (regenerated into SV/Generated/Funcs.lean on every run) IS the model's -/
+theorem source_flush_test_is_the_models (p : P) :
+    p.bump = (if Gen.dbNoFlushNeeded p.sizeBatch p.maxBatch then { p with sizeBatch := p.sizeBatch + 1 }
+              else ({ p with sizeBatch := p.sizeBatch + 1 } : P).flush) ∧
+    Gen.serialNoFlushNeeded p.sizeBatch p.maxBatch = Gen.dbNoFlushNeeded p.sizeBatch p.maxBatch := GenProofs.bump_eq p
 
 end SV.Props.C10
